@@ -23,7 +23,7 @@ enum Placement { P_KERNEL = 0, P_PACKED_FAR = 1, P_SPREAD_4G = 2, P_ALTERNATE = 
 struct SimCode {
   struct Region { uint8_t *addr; size_t len; bool live; int windows; bool open; };
   std::vector<Region> regs;
-  int policy = P_PACKED_FAR; uint8_t *base = nullptr; uint64_t span = 0; uint64_t next_near = 0, next_far = 0; unsigned nmaps = 0;
+  int policy = P_PACKED_FAR; uint64_t spread_gap = 1ull << 32; uint8_t *base = nullptr; uint64_t span = 0; uint64_t next_near = 0, next_far = 0; unsigned nmaps = 0;
   bool bad = false; std::string cls, sig, detail;
   uint64_t n_map = 0, n_unmap = 0, n_protect_w = 0, n_protect_x = 0, events = 0, multi_page_windows = 0;
   Fnv trace;
@@ -51,12 +51,11 @@ struct SimCode {
 
   void *do_map(size_t len) {
     n_map++; size_t plen = (len + 4095) & ~(size_t) 4095; void *want = nullptr;
-    const uint64_t G4 = 1ull << 32;
     switch (policy) {
     case P_KERNEL: want = nullptr; break;
     case P_PACKED_FAR: want = base + next_near; next_near += plen + 65536; break;
-    case P_SPREAD_4G: want = base + next_far; next_far += G4 + plen + 65536; break;
-    default: if (nmaps & 1) { want = base + (span / 2) + next_far; next_far += G4 + plen; } else { want = base + next_near; next_near += plen + 65536; } break;
+    case P_SPREAD_4G: want = base + next_far; next_far += spread_gap + plen; break;   // distance between consecutive holders: 1GB .. 6GB per run
+    default: if (nmaps & 1) { want = base + (span / 2) + next_far; next_far += spread_gap + plen; } else { want = base + next_near; next_near += plen + 65536; } break;
     }
     nmaps++;
     void *p = mmap(want, plen, PROT_READ | PROT_EXEC, MAP_PRIVATE | MAP_ANONYMOUS | (want ? MAP_FIXED_NOREPLACE : 0), -1, 0);
